@@ -53,7 +53,7 @@ def doStep (s : Store) (op : Op) : Store × String :=
 
 def demoStep (s : Store) (toks : List String) : Store × String :=
   match toks with
-  | ["reset", k] => (.leaf (Layer.empty (k = "file" || k = "blob")), "ok")
+  | ["reset", k] => (.leaf (Layer.empty (k = "file" || k = "blob" || k = "hexfile" || k = "cfgfile")), "ok")
   | ["begin", x, t] =>
     (match x.toNat?, tidArg t with
      | some x, some t => doStep s (.begin x (some t) 0)
@@ -91,11 +91,13 @@ def demoStep (s : Store) (toks : List String) : Store × String :=
     (match x.toNat?, o.toNat?, tidArg ser with
      | some x, some o, some ser => doStep s (.checkCurrent x o ser)
      | _, _, _ => (s, "bad-op"))
-  | ["pack", p] => (match tidArg p with | some p => doStep s (.pack p) | none => (s, "bad-op"))
+  | ["pack", p] => (match tidArg p with | some p => doStep s (.pack p none) | none => (s, "bad-op"))
+  | ["pack", p, "f"] => (match tidArg p with | some p => doStep s (.pack p (some false)) | none => (s, "bad-op"))
+  | ["pack", p, "t"] => (match tidArg p with | some p => doStep s (.pack p (some true)) | none => (s, "bad-op"))
   | ["newoid", ds] => (match natList ds with | some ds => doStep s (.newOid ds) | none => (s, "bad-op"))
   | ["push", d] => (match d.toNat? with | some d => doStep s (.push d) | none => (s, "bad-op"))
   | ["pushwith", k, d] =>
-    (match d.toNat? with | some d => doStep s (.pushWith (k = "file" || k = "blob") d) | none => (s, "bad-op"))
+    (match d.toNat? with | some d => doStep s (.pushWith (k = "file" || k = "blob" || k = "hexfile" || k = "cfgfile") d) | none => (s, "bad-op"))
   | ["pop"] => doStep s .pop
   | ["lb", o, t] =>
     (match o.toNat?, tidArg t with
@@ -131,6 +133,16 @@ def demoStep (s : Store) (toks : List String) : Store × String :=
     (match tidArg a, tidArg z with
      | some a, some z => (s, "[" ++ joinWith ";" ((s.iteratorRange a z).map txnStr) ++ "]")
      | _, _ => (s, "bad-op"))
+  | ["undolog"] =>       -- DemoStorage copies undoLog/undoInfo from the changes
+    let top := match s with
+      | .leaf l => l
+      | .demo _ c _ => c
+    (s, if top.canUndo then "[" ++ joinWith "," (top.undoLog.map tidStr) ++ "]" else "err:Unsupported")
+  | ["api"] =>           -- len(), tpc_transaction(), supportsUndo
+    let (top, intxn) := match s with
+      | .leaf l => (l, l.staged.isSome)
+      | .demo _ c ds => (c, ds.txn.isSome)
+    (s, s!"len={top.oidCount} txn={if intxn then 1 else 0} undo={if top.canUndo then 1 else 0}")
   | ["depth"] =>
     let rec depth : Store → Nat
       | .leaf _ => 0
